@@ -306,23 +306,21 @@ def compare_hkl(name, tmod, lmod):
         combos = sorted({(s.Laue, s.cell_choice, s.crystal_system) for s in settings})
         diff = [c for c in combos if ts.table_key(*c) != ls.table_key(*c)]
         out.append(("cones", not diff, "different cone tables for (Laue, cell choice, crystal system) %s" % (diff[:2],)))
-        from props.c05 import visit_rules
-        vt = visit_rules(core.Ctx("C14", "quick"), tmod, "tools")
-        vl = visit_rules(core.Ctx("C14", "quick"), lmod, "laue")
-        out.append(("calls", vt == vl, "the reflection-condition test is consulted differently: tools passes crystal_system=%s, cell_choice=%s ; "
-                    "laue passes crystal_system=%s, cell_choice=%s" % (vt["crystal_system"], vt["cell_choice"], vl["crystal_system"], vl["cell_choice"])))
-        from props.hklwalk import analyse_tests, analyse_tail, analyse_steps
-        from props.c06 import analyse_insync
-        verdicts = []
-        for mod_, short in ((tmod, "tools"), (lmod, "laue")):
-            c_ = core.Ctx("C14", "quick")
-            shell, svars = analyse_tests(c_, mod_, short)
-            analyse_tail(c_, mod_, short)
-            analyse_steps(c_, mod_, short)
-            sync = analyse_insync(c_, mod_, mod_.func("genhkl_base"), short, sintl_var=sorted(svars)[0])
-            verdicts.append((sorted(f["key"].split(":")[1] + ":" + f["key"].rsplit(":", 1)[-1].replace(short, "") for f in c_.fails), sorted(sync.values())))
-        out.append(("result", verdicts[0] == verdicts[1] and not verdicts[0][0],
-                    "the walks differ or do not satisfy the rules of C05/C06 they are compared through: tools %s ; laue %s" % (verdicts[0], verdicts[1])))
+        # both walks evaluated as a whole on the same band models (props/hklrun.py)
+        from props import hklrun
+        rows_t, rows_l = hklrun.rows_of(ts, settings), hklrun.rows_of(ls, settings)
+        results = hklrun.run_all([(tmod.rel, rows_t), (lmod.rel, rows_l)], "quick")
+        vt, vl = hklrun.verdicts(results, tmod.rel), hklrun.verdicts(results, lmod.rel)
+        pt, pl = hklrun.consult_policy(vt), hklrun.consult_policy(vl)
+        out.append(("calls", pt == pl, "the reflection-condition test is consulted differently: tools passes crystal_system=%s, cell_choice=%s ; "
+                    "laue passes crystal_system=%s, cell_choice=%s" % (pt["crystal_system"], pt["cell_choice"], pl["crystal_system"], pl["cell_choice"])))
+        differ = []
+        for c in sorted(set(vt) & set(vl)):
+            if c in diff:
+                continue
+            if vt[c]["signature"] != vl[c]["signature"] or vt[c]["syscond_ok"] != vl[c]["syscond_ok"]:
+                differ.append((c[0], c[1]))
+        out.append(("result", not differ, "evaluated on the same band models the two walks return different rows / sort keys for (Laue, cell choice) %s" % (differ[:3],)))
         return out
     if name in ("genhkl_all", "genhkl_unique"):
         from props.hklwrap import Wrap
